@@ -1,5 +1,90 @@
-(* HsmIO.v — stub: replaced by the real decoder/runner when the property is built. *)
-From Coq Require Import List.
-From M Require Import Sx.
+(* HsmIO.v — decoding of hierarchical cases / encoding of observations. *)
+From Coq Require Import List Arith Bool.
+From M Require Import Sx Base Flat FlatIO Hsm.
 Import ListNotations.
-Definition run_hsm_case (x : sx) : sx := L [N 0].
+
+Definition d_path := d_list d_nat.
+Definition d_htrans (x : sx) : option htrans :=
+  match x with
+  | L [src; dst; prep; conds; bef; aft] =>
+      do s <- d_path src; do d <- d_option d_path dst; do p <- d_list d_nat prep;
+      do cs <- d_list (d_pair d_nat d_bool) conds;
+      do b <- d_list d_nat bef; do a <- d_list d_nat aft;
+      Some (mkHT s d p cs b a)
+  | _ => None
+  end.
+Definition d_hevents := d_list (d_pair d_nat (d_list d_htrans)).
+
+Fixpoint d_sdefn (fuel : nat) (x : sx) : option sdefn :=
+  match fuel with
+  | 0 => None
+  | S f =>
+      match x with
+      | L [N n; en; ex; onf; fin; ign; ini; evs; ch] =>
+          do en' <- d_list d_nat en; do ex' <- d_list d_nat ex; do onf' <- d_list d_nat onf;
+          do fin' <- d_bool fin; do ign' <- d_option d_bool ign; do ini' <- d_list d_nat ini;
+          do evs' <- d_hevents evs; do ch' <- d_list (d_sdefn f) ch;
+          Some (SDef n en' ex' onf' fin' ign' ini' evs' ch')
+      | _ => None
+      end
+  end.
+
+Definition d_hmachine (x : sx) : option hmachine :=
+  match x with
+  | L [sts; evs; pe; bsc; asc; fin; oe; ofi; ign; send] =>
+      do sts' <- d_list (d_sdefn 64) sts;
+      do evs' <- d_hevents evs;
+      do pe' <- d_list d_nat pe; do bsc' <- d_list d_nat bsc; do asc' <- d_list d_nat asc;
+      do fin' <- d_list d_nat fin; do oe' <- d_list d_nat oe; do ofi' <- d_list d_nat ofi;
+      do ign' <- d_bool ign; do send' <- d_bool send;
+      Some (mkHM sts' evs' pe' bsc' asc' fin' oe' ofi' ign' send')
+  | _ => None
+  end.
+
+Fixpoint e_tree (t : tree) : sx :=
+  match t with Node n ch => L [N n; L (map e_tree ch)] end.
+Definition e_forest (f : forest) : sx := L (map e_tree f).
+
+Definition e_hitem (it : gitem forest) : sx :=
+  L [e_slot (it_slot it); N (it_cb it); N (it_model it); e_forest (it_state it); e_arg (it_arg it);
+     e_option e_exn (it_err it); e_bool (it_ret it); e_list e_action (it_acts it)].
+
+(* the configuration add_model puts a model in: the initial path, then initial substates
+   (HierarchicalMachine._resolve_initial), no callbacks *)
+Definition initial_config (hm : hmachine) (ini : path) : forest :=
+  match find_def (hm_states hm) ini with
+  | Some d => chain_tree ini (initial_tree def_depth_bound d)
+  | None => []
+  end.
+
+Definition hrun_one (hm : hmachine) (ev : env) (m : model) (h : hcall)
+  : M (V:=forest) (S:=forest) bool :=
+  let c := mkCtx m (h_payload h) (hm_send_event hm) in
+  match h_kind h with
+  | KMay => Hsm.can_trigger hm ev c (h_event h)
+  | _ => Hsm.trigger_event hm ev c (h_event h)
+  end.
+
+Fixpoint hrun_history (hm : hmachine) (ev : env) (m : model) (hs : list hcall)
+                      (p : nat) (s : forest) : list sx :=
+  match hs with
+  | [] => []
+  | h :: rest =>
+      match hrun_one hm ev m h p s with
+      | (tr, s', r) =>
+          L [e_list e_hitem tr; e_result r; e_forest s'] :: hrun_history hm ev m rest (p + length tr) s'
+      end
+  end.
+
+(* case := [hmachine; env; model id; initial path; history] *)
+Definition run_hsm_case (x : sx) : sx :=
+  match x with
+  | L [mcx; evx; N m; inix; hx] =>
+      match d_hmachine mcx, d_env evx, d_path inix, d_list d_call hx with
+      | Some hm, Some ev, Some ini, Some hs =>
+          let f0 := initial_config hm ini in
+          L [N 1; e_forest f0; L (hrun_history hm ev m hs 0 f0)]
+      | _, _, _, _ => L [N 0]
+      end
+  | _ => L [N 0]
+  end.
